@@ -1,4 +1,5 @@
 CONSTANTS Values = {0, 1, 16777216, 2147483647}  MaxDepth = 3  SeedLen = 16  Filter = "all"
 SPECIFICATION SpecE
+INVARIANTS CommutesAlongPath CommutesOneStep Kinds Metadata KeyIsSumOfTweaks Layouts TextRoundTrip CompactSound
 ACTION_CONSTRAINT Emit
 CHECK_DEADLOCK FALSE
